@@ -42,6 +42,17 @@ Theorem c17_set_local : forall idk fx m s peers,
 Proof. exact set_local. Qed.
 Print Assumptions c17_set_local.
 
+(* set operations on different identifiers commute (observably): a group of
+   concurrent SetValidPeers calls on pairwise different identifiers has ONE outcome *)
+Theorem c17_sets_on_different_ids_commute : forall idk fx v s1 p1 s2 p2,
+  s1 <> s2 -> (match v with Some m => wf m | None => True end) ->
+  (forall s, vp_get (vp_set idk fx (vp_set idk fx v s1 p1) s2 p2) s =
+             vp_get (vp_set idk fx (vp_set idk fx v s2 p2) s1 p1) s) /\
+  (forall i, vp_valid idk fx (vp_set idk fx (vp_set idk fx v s1 p1) s2 p2) i =
+             vp_valid idk fx (vp_set idk fx (vp_set idk fx v s2 p2) s1 p1) i).
+Proof. exact set_commute. Qed.
+Print Assumptions c17_sets_on_different_ids_commute.
+
 (* the very first set turns "everyone is valid / nil" into "only these" *)
 Theorem c17_first_set : forall idk fx s peers s', s' <> s ->
   vp_get None s' = None /\ vp_get (vp_set idk fx None s peers) s' = Some [].
